@@ -70,7 +70,10 @@ fn main() {
                 // a third of the clock moves skip the eviction sweep (update_time_readonly): the executor under test then holds
                 // lazily expired keys, which must be unobservable (the model knows only one kind of clock move)
                 let lazy = g.chance(0.35);
-                let (ra, rb) = if lazy { (a_ex.set_time_lazy(t), b_ex.set_time_lazy(t)) } else { (a_ex.set_time(t), b_ex.set_time(t)) };
+                // ... and a sixth go through the TTL manager's entry evict_expired_direct
+                let direct = !lazy && g.chance(0.25);
+                let (ra, rb) = if lazy { (a_ex.set_time_lazy(t), b_ex.set_time_lazy(t)) } else if direct { (a_ex.set_time_evict_direct(t), b_ex.set_time_evict_direct(t)) } else { (a_ex.set_time(t), b_ex.set_time(t)) };
+                if direct { out.count("step:tick-evict_expired_direct"); }
                 if lazy { out.count("step:tick-without-eviction-sweep"); }
                 let snap = if ra.is_ok() && rb.is_ok() { snapshot(&mut b_ex, &KEYS) } else { Err(ra.err().or(rb.err()).unwrap()) };
                 let snap = match snap { Ok(s) => s, Err(p) => {
@@ -91,10 +94,49 @@ fn main() {
                 trace.push(json!({"set_time": t, "keyspace": snap_json(&snap)}));
                 if snap != last { changes += 1; }
                 last = snap;
+            } else if g.pending.is_empty() && g.chance(0.05) {
+                // an executor-level transaction: MULTI, 2-4 commands (each must answer QUEUED and change nothing), EXEC.
+                // EXEC's array must be what the commands answer when run one after the other (that is how the model sees them).
+                use redis_sim::redis::{Command, RespValue};
+                let k = g.rng.gen_range(2..=4);
+                let cs: Vec<MCmd> = (0..k).map(|_| { g.pending.clear(); g.cmd() }).collect();
+                g.pending.clear();
+                let mut ok = true; let mut why = String::new();
+                let mut run = |im: &mut Impl| -> Result<Vec<RespValue>, String> {
+                    if im.exec(&Command::Multi)? != RespValue::simple("OK") { return Err("MULTI did not answer OK".into()); }
+                    for c in &cs { let r = im.exec(&c.to_rust())?; if r != RespValue::simple("QUEUED") { return Err(format!("{} inside MULTI answered {:?} instead of QUEUED", c.name(), r)); } }
+                    match im.exec(&Command::Exec)? { RespValue::Array(Some(v)) if v.len() == cs.len() => Ok(v), o => Err(format!("EXEC answered {:?}", o)) }
+                };
+                let (ra, rb) = (run(&mut a_ex), run(&mut b_ex));
+                let (ra, rb) = match (ra, rb) { (Ok(x), Ok(y)) => (x, y), (x, y) => { ok = false; why = x.err().or(y.err()).unwrap_or_default(); (vec![], vec![]) } };
+                if !ok {
+                    viol(&mut out, &mut vseen, "transaction-block", i, &format!("MULTI/EXEC block failed: {}", why), json!({"commands": cs.iter().map(|c| c.to_coq()).collect::<Vec<_>>(), "clock": g.now, "steps_before": trace}));
+                    break;
+                }
+                if ra.iter().zip(cs.iter()).map(|(r, c)| canon_reply(c, r)).collect::<Vec<_>>() != rb.iter().zip(cs.iter()).map(|(r, c)| canon_reply(c, r)).collect::<Vec<_>>() {
+                    viol(&mut out, &mut vseen, "probes-change-reply", i, "read-only probes issued earlier changed the replies of a later MULTI/EXEC block", json!({"commands": cs.iter().map(|c| c.to_coq()).collect::<Vec<_>>(), "without_probes": format!("{:?}", ra), "with_probes": format!("{:?}", rb), "steps_before": trace}));
+                }
+                let snap = match snapshot(&mut b_ex, &KEYS) { Ok(s) => s, Err(p) => {
+                    viol(&mut out, &mut vseen, "panic-probe", i, "the implementation panicked while the keyspace was read", json!({"after": "EXEC", "panic": p, "steps_before": trace}));
+                    break; } };
+                out.count("step:multi-exec-block");
+                for (n, (c, r)) in cs.iter().zip(ra.iter()).enumerate() {
+                    out.count(&format!("cmd:{}", c.name())); fams.insert(family(c));
+                    if n + 1 < cs.len() { terms.push(format!("SN {} {}", c.to_coq(), canon_reply_coq(c, r))); }
+                    else { terms.push(format!("SC {} {} {}", c.to_coq(), canon_reply_coq(c, r), if snap == last { "None".to_string() } else { format!("(Some {})", snap_coq(&snap)) })); }
+                    trace.push(json!({"in_multi_exec": c.to_coq(), "reply": format!("{:?}", r)}));
+                }
+                trace.push(json!({"after_exec_keyspace": snap_json(&snap)}));
+                if snap != last { changes += 1; }
+                last = snap;
             } else {
                 let c = g.cmd();
                 let rc = c.to_rust();
-                let ra = a_ex.exec(&rc); let rb = b_ex.exec(&rc);
+                // the same behaviour through the executor's other entry points (both executors take the same path)
+                let path: u8 = match g.rng.gen_range(0..10) { 0 | 1 => 1, 2 | 3 => 2, 4 => 3, _ => 0 };
+                let ra = a_ex.exec_via(&c, path); let rb = b_ex.exec_via(&c, path);
+                if let Ok((_, via)) = &ra { if *via != "execute" { out.count(&format!("entry:{}", via)); } }
+                let (ra, rb) = (ra.map(|x| x.0), rb.map(|x| x.0));
                 let (ra, rb) = match (ra, rb) { (Ok(x), Ok(y)) => (x, y), (x, y) => {
                     let p = x.err().or(y.err()).unwrap_or_default(); let cls = format!("panic:{}:{}", c.name(), p.chars().take(60).collect::<String>());
                     viol(&mut out, &mut vseen, &cls, i, &format!("the implementation panicked in {}: {}", c.name(), p), json!({"command": c.to_coq(), "panic": p, "clock": g.now, "steps_before": trace}));
